@@ -1,7 +1,11 @@
 """property -> correspondence suites"""
-from .suites import pure, diff, walk, sync
+from .suites import pure, diff, walk, sync, proto
 
 PROPS = {
+    "C06": {
+        "suites": [proto.SendProto],
+        "assumptions": ["payload bytes are compared by the independent reference receiver in the harness; the Lean acceptor replays lengths/order of the boundary events"],
+    },
     "C05": {
         "suites": [sync.SyncC05, diff.DiffSuite],
         "assumptions": ["the hash function is uninterpreted: the harness's recording hasher feeds sha256 with (canonical header of the stat it is given) ++ bytes written"],
